@@ -54,6 +54,17 @@ def install(interp):
         i.apply_class_invs(v, path)
         return v
 
+    def lookup(i, path, args, kw):
+        from .values import SeqV
+        from .sorts import TypeDesc
+        fct, ids, scope = args
+        A = i.load_module('dznpy.ast')
+        kinds = [A.globals[n] for n in ('Component', 'Enum', 'Extern', 'Foreign', 'Interface', 'SubInt', 'System')]
+        uni = i.make_union('Decl', kinds)
+        f = z3.Function('ghost.lookup', ids.expr.sort(), scope.expr.sort(), z3.SeqSort(uni['sort']))
+        return SeqV(i.seq_of_base(f(ids.expr, scope.expr), TypeDesc('union', uni), path), frozen=True)
+
+    interp.overrides['specs.ghost.lookup'] = lookup
     interp.overrides['specs.ghost.extern_of'] = extern_of
     interp.overrides['specs.ghost.prefix'] = prefix
     for name, f in (('all_ws', all_ws), ('no_break', no_break), ('is_ident', is_ident), ('implies', implies)):
